@@ -40,7 +40,8 @@ theorem muggle_channel_init_c18 (f : Sched) (w r : Bool) (h : Heap) :
   chanInit_contract f w r h
 
 /-- `muggle_ring_buffer_init`, `muggle_array_blocking_queue_init`, `muggle_sowr_memory_pool_init`,
-`muggle_ring_memory_pool_init`, `muggle_bytes_buffer_init`, `muggle_flow_ctl_init` -/
+`muggle_ring_memory_pool_init`, `muggle_bytes_buffer_init`, `muggle_flow_ctl_init`,
+`muggle_fast_flow_ctl_init` -/
 theorem single_array_init_c18 (f : Sched) (h : Heap) :
     InitContract ({ p := .own } : One) {} 1 0 1 f h (oneInit f true h) :=
   oneInit_contract f h
@@ -101,6 +102,16 @@ theorem muggle_evloop_new_c18 (f : Sched) (t : Int) (mempool : Bool) (hints : In
     InitContract (evBuilt (evloopType t) mempool (evHints hints) ns) {} (evMem (evloopType t) mempool)
       (evFds (evloopType t)) (evN (evloopType t) mempool) f h (evloopNew f t mempool hints ns h) :=
   evloopNew_contract f t mempool hints hh ns hns h
+
+/-- `muggle_socket_evloop_pipe_init` (one `pipe()`, two descriptors) -/
+theorem muggle_socket_evloop_pipe_init_c18 (f : Sched) (h : Heap) :
+    InitContract ({ a := .own, b := .own } : Two) {} 0 2 1 f h (evpipeInit f h) :=
+  evpipeInit_contract f h
+
+/-- `muggle_socket_create` -/
+theorem muggle_socket_create_c18 (f : Sched) (h : Heap) :
+    InitContract ({ p := .own } : One) {} 0 1 1 f h (sockCreate f h) :=
+  sockCreate_contract f h
 
 /-- `muggle_socket_evloop_handle_init` -/
 theorem muggle_socket_evloop_handle_init_c18 (f : Sched) (h : Heap) :
@@ -239,11 +250,12 @@ theorem destroy_after_failed_init_is_safe (h : Heap) :
     evsigDestroy {} h = .ok ({}, h) ∧
     evloopDelete {} h = .ok ({}, h) ∧
     sockhDestroy {} h = .ok ({}, h) ∧
+    evpipeDestroy {} h = .ok ({}, h) ∧
     alogDestroy {} h = .ok ({}, h) :=
   ⟨chanDestroy_empty h, fun n => oneDestroy_empty n h, dbufDestroy_empty h, maRingCleanup_empty h,
    mpoolDestroy_empty h, twoDestroy_empty h, fun n => arrDestroy_empty n h, ncDestroy_empty h,
    htabDestroy_empty h, evsigDestroy_empty h, by simp [evloopDelete], sockhDestroy_empty h,
-   alogDestroy_empty h⟩
+   evpipeDestroy_empty h, alogDestroy_empty h⟩
 
 /-! ## Clause 4 + all clauses over whole call sequences — life cycle
 
@@ -290,6 +302,10 @@ theorem lifecycle_trie : LifeCycleOK trieFam := lifeCycleOK_of_laws trieFam_laws
 theorem lifecycle_event_signal : LifeCycleOK evsigFam := lifeCycleOK_of_laws evsigFam_laws
 /-- event loop: new / add_ctx / delete, all backends -/
 theorem lifecycle_event_loop : LifeCycleOK evloopFam := lifeCycleOK_of_laws evloopFam_laws
+/-- socket event-loop pipe -/
+theorem lifecycle_socket_evloop_pipe : LifeCycleOK evpipeFam := lifeCycleOK_of_laws evpipeFam_laws
+/-- socket create / close -/
+theorem lifecycle_socket : LifeCycleOK sockFam := lifeCycleOK_of_laws sockFam_laws
 /-- socket event-loop handle -/
 theorem lifecycle_socket_evloop_handle : LifeCycleOK sockhFam := lifeCycleOK_of_laws sockhFam_laws
 /-- async logger: init / log / destroy -/
